@@ -231,8 +231,8 @@ package argmapper
 //@ ghost vsP1(vs *ValueSet, T reflect.Type, n int) bool = forall(j, int, imp(0 <= j && j < len(vs.values), vs.values[j] != nil && eligible(T, vs.values[j].index) && vs.values[j].index < n && vs.values[j].Type == fieldType(T, vs.values[j].index) && vs.values[j].Name == specName(T, vs.values[j].index) && vs.values[j].Subtype == specSub(T, vs.values[j].index) && !valid(vs.values[j].Value) && vpos[vs.values[j].index] == j))
 //@ ghost vsP2(vs *ValueSet, T reflect.Type, n int) bool = forall(j, int, k, int, imp(0 <= j && j < k && k < len(vs.values), vs.values[j].index < vs.values[k].index && vs.values[j] != vs.values[k]))
 //@ ghost vsP3(vs *ValueSet, T reflect.Type, n int) bool = forall(i, int, imp(eligible(T, i) && i < n, 0 <= vpos[i] && vpos[i] < len(vs.values) && vs.values[vpos[i]].index == i))
-//@ ghost vsP4(vs *ValueSet, T reflect.Type, n int) bool = forall(j, int, imp(0 <= j && j < len(vs.values) && vs.values[j].Name != "", has(vs.namedValues, vs.values[j].Name) && imp(forall(k, int, imp(j < k && k < len(vs.values), vs.values[k].Name != vs.values[j].Name)), vs.namedValues[vs.values[j].Name] == vs.values[j])))
-//@ ghost vsP5(vs *ValueSet, T reflect.Type, n int) bool = forall(j, int, imp(0 <= j && j < len(vs.values) && vs.values[j].Name == "", has(vs.typedValues, vs.values[j].Type) && imp(forall(k, int, imp(j < k && k < len(vs.values) && vs.values[k].Name == "", vs.values[k].Type != vs.values[j].Type)), vs.typedValues[vs.values[j].Type] == vs.values[j])))
+//@ ghost vsP4(vs *ValueSet, T reflect.Type, n int) bool = forall(j, int, imp(0 <= j && j < len(vs.values) && vs.values[j].Name != "", has(vs.namedValues, vs.values[j].Name)))
+//@ ghost vsP5(vs *ValueSet, T reflect.Type, n int) bool = forall(j, int, imp(0 <= j && j < len(vs.values) && vs.values[j].Name == "", has(vs.typedValues, vs.values[j].Type)))
 //@ ghost vsP6(vs *ValueSet, T reflect.Type, n int) bool = forall(m, string, imp(has(vs.namedValues, m), vs.namedValues[m] != nil && vs.namedValues[m].Name == m && m != "" && 0 <= vpos[vs.namedValues[m].index] && vpos[vs.namedValues[m].index] < len(vs.values) && vs.values[vpos[vs.namedValues[m].index]] == vs.namedValues[m]))
 //@ ghost vsP7(vs *ValueSet, T reflect.Type, n int) bool = forall(t, reflect.Type, imp(has(vs.typedValues, t), vs.typedValues[t] != nil && vs.typedValues[t].Type == t && vs.typedValues[t].Name == "" && 0 <= vpos[vs.typedValues[t].index] && vpos[vs.typedValues[t].index] < len(vs.values) && vs.values[vpos[vs.typedValues[t].index]] == vs.typedValues[t]))
 //@ ghost vsPart(vs *ValueSet, T reflect.Type, n int) bool = vsP0(vs, T, n) && vsP1(vs, T, n) && vsP2(vs, T, n) && vsP3(vs, T, n) && vsP4(vs, T, n) && vsP5(vs, T, n) && vsP6(vs, T, n) && vsP7(vs, T, n)
@@ -245,7 +245,14 @@ package argmapper
 //@   ensures  [rejects-double-pointer] imp(ptrDepth(old(typ)) > 1, result1 != nil)
 //@   ensures  [rejects-non-struct] imp(kindof(baseType(old(typ))) != 25, result1 != nil)
 //@   ensures  [accepts] imp(ptrDepth(old(typ)) <= 1 && kindof(baseType(old(typ))) == 25, result1 == nil)
-//@   ensures  [mirrors-struct] imp(result1 == nil, vsOK(result0, baseType(old(typ))) && fresh(result0) && result0.structPointers == ptrDepth(old(typ)) && !result0.isLifted)
+//@   ensures  [mirrors-struct-shape] imp(result1 == nil, fresh(result0) && result0.structPointers == ptrDepth(old(typ)) && !result0.isLifted && vsP0(result0, baseType(old(typ)), numField(baseType(old(typ)))))
+//@   ensures  [mirrors-struct-1] imp(result1 == nil, vsP1(result0, baseType(old(typ)), numField(baseType(old(typ)))))
+//@   ensures  [mirrors-struct-2] imp(result1 == nil, vsP2(result0, baseType(old(typ)), numField(baseType(old(typ)))))
+//@   ensures  [mirrors-struct-3] imp(result1 == nil, vsP3(result0, baseType(old(typ)), numField(baseType(old(typ)))))
+//@   ensures  [mirrors-struct-4] imp(result1 == nil, vsP4(result0, baseType(old(typ)), numField(baseType(old(typ)))))
+//@   ensures  [mirrors-struct-5] imp(result1 == nil, vsP5(result0, baseType(old(typ)), numField(baseType(old(typ)))))
+//@   ensures  [mirrors-struct-6] imp(result1 == nil, vsP6(result0, baseType(old(typ)), numField(baseType(old(typ)))))
+//@   ensures  [mirrors-struct-7] imp(result1 == nil, vsP7(result0, baseType(old(typ)), numField(baseType(old(typ)))))
 //@   ensures  [error-means-nil] imp(result1 != nil, result0 == nil)
 //@   ensures  [frame] vsKept()
 //@   assigns  ValueSet, Value, valueInternal, []*Value, map[string]*Value, map[reflect.Type]*Value, map[string]string, []string, []interface{}, reflect.StructField, vpos
